@@ -189,6 +189,9 @@ pub struct RunLog {
     pub overlapping_txns: bool,
     pub probes_blocked: u32,
     pub probes_admitted: u32,
+    /// a granted thread went silent inside a storage call while another, parked thread had a
+    /// transaction open: counted as waiting for that thread's lock, and the others were let on
+    pub blocked_in_call: u32,
     pub inconclusive: Option<String>,
 }
 
@@ -213,6 +216,8 @@ pub fn drive(gates: &Arc<Gates>, rx: &mpsc::Receiver<Msg>, n: usize, cfg: &Sched
     // the thread currently being probed (granted at Begin although the lock is modelled taken)
     let mut probing: Option<(usize, Instant)> = None;
     let start = Instant::now();
+    // when each thread was last let go
+    let mut since: Vec<Instant> = vec![Instant::now(); n];
     loop {
         // 1. wait until no thread is running
         while st.iter().any(|s| *s == TState::Running) {
@@ -248,10 +253,11 @@ pub fn drive(gates: &Arc<Gates>, rx: &mpsc::Receiver<Msg>, n: usize, cfg: &Sched
                     Msg::Released(t) => {
                         holders.retain(|h| *h != t);
                         // a thread blocked in the real lock gets in now: wait for it
-                        if holders.is_empty() {
-                            for s in st.iter_mut() {
+                        if holders.is_empty() || log.blocked_in_call > 0 {
+                            for (i, s) in st.iter_mut().enumerate() {
                                 if *s == TState::Blocked {
                                     *s = TState::Running;
+                                    since[i] = Instant::now();
                                 }
                             }
                         }
@@ -267,6 +273,16 @@ pub fn drive(gates: &Arc<Gates>, rx: &mpsc::Receiver<Msg>, n: usize, cfg: &Sched
                             st[p] = TState::Blocked;
                             log.probes_blocked += 1;
                             probing = None;
+                        }
+                    }
+                    // a backend that lets two transactions be open at once (neither shipped backend
+                    // does) may make a thread wait, inside some later call, for a lock the other,
+                    // parked thread holds: let the others on instead of waiting for the watchdog
+                    for t in 0..n {
+                        let probed = probing.map(|(p, _)| p == t).unwrap_or(false);
+                        if st[t] == TState::Running && !probed && since[t].elapsed() >= cfg.probe_wait * 8 && holders.iter().any(|h| *h != t && matches!(st[*h], TState::Parked(_))) {
+                            st[t] = TState::Blocked;
+                            log.blocked_in_call += 1;
                         }
                     }
                     if start.elapsed() > cfg.watchdog {
@@ -306,6 +322,7 @@ pub fn drive(gates: &Arc<Gates>, rx: &mpsc::Receiver<Msg>, n: usize, cfg: &Sched
             if want {
                 let t = probe_candidates[0];
                 st[t] = TState::Running;
+                since[t] = Instant::now();
                 probing = Some((t, Instant::now()));
                 gates.grant(t);
                 continue;
@@ -337,6 +354,7 @@ pub fn drive(gates: &Arc<Gates>, rx: &mpsc::Receiver<Msg>, n: usize, cfg: &Sched
         };
         let t = eligible[idx];
         st[t] = TState::Running;
+        since[t] = Instant::now();
         gates.grant(t);
         if start.elapsed() > cfg.watchdog {
             log.inconclusive = Some("watchdog".into());
